@@ -32,13 +32,15 @@ import (
 
 var out = gen.NewOut()
 
-// the variant of ProcWalletSetPasswd the Lean driver is told to model (the code as it is in /repo).
-const modelVariant = "current"
+// the variant of ProcWalletSetPasswd the Lean driver is told to model: the code as it is in /repo.
+// (VERIF_C38_VARIANT=verifyfirst|repaired lets a proposed repair of /repo be checked against the matching model
+// variant before this default is switched.)
+var modelVariant = "current"
 
 const (
 	blockWait = 300 * time.Millisecond // only for calls the scenario EXPECTS to block
 	longWait  = 60 * time.Second       // for calls expected to return / events expected to happen
-	timerSecs = 2
+	timerSecs = 1
 )
 
 const txHex = "0a05636f696e73120c18010a081080c2d72f1a01312080897a30c0e2a4a789d684ad443a0131"
@@ -60,12 +62,13 @@ type pending struct {
 }
 
 type world struct {
-	e     *env
-	pw    string
-	seed  string
-	addrs []string
-	keys  map[string]string
-	npw   int
+	e      *env
+	pw     string
+	seed   string
+	addrs  []string
+	keys   map[string]string
+	npw    int
+	nextra int
 
 	// ghost
 	auth    bool
@@ -220,6 +223,18 @@ func (w *world) guardedBattery() []gres {
 	os.Remove(fn)
 	ks, err := w.e.w.GetAllPrivKeys()
 	add("GetAllPrivKeys", err == nil && len(ks) == len(w.addrs), err)
+	if !w.auth {
+		// handlers that would store a new key / spend from every account: only tried while the wallet must be locked
+		w.nextra++
+		_, err = api.ExecWalletFunc("wallet", "NewAccount", &types.ReqNewAccount{Label: fmt.Sprintf("extra%d", w.nextra)})
+		add("NewAccount", err == nil, err)
+		_, err = api.ExecWalletFunc("wallet", "WalletImportPrivkey", &types.ReqWalletImportPrivkey{Privkey: fmt.Sprintf("0x%064x", 1000+w.nextra), Label: fmt.Sprintf("extraimp%d", w.nextra)})
+		add("WalletImportPrivkey", err == nil, err)
+		_, err = api.ExecWalletFunc("wallet", "WalletMergeBalance", &types.ReqWalletMergeBalance{To: w.addrs[1]})
+		add("WalletMergeBalance", err == nil, err)
+		_, err = api.ExecWalletFunc("wallet", "NewAccountByIndex", &types.Int32{Data: 100000001})
+		add("NewAccountByIndex", err == nil, err)
+	}
 	return rs
 }
 
@@ -560,13 +575,13 @@ func (w *world) exec(script []string, r *gen.Rand) {
 
 func witnessScript() []string {
 	return []string{
-		"restart",        // password no longer cached: the old-password check reads the store
-		"read",           // locked
-		"spbegin 0 1 1",  // ProcWalletSetPasswd with a WRONG old password …
-		"spto p1",        // … held inside VerifyPasswordHash
-		"read",           // a concurrent status reader
-		"guarded",        // a key dump at this moment waits for wallet.mtx
-		"spto ret",       // the call fails with ErrVerifyOldpasswdFail and restores the flag
+		"restart",       // password no longer cached: the old-password check reads the store
+		"read",          // locked
+		"spbegin 0 1 1", // ProcWalletSetPasswd with a WRONG old password …
+		"spto p1",       // … held inside VerifyPasswordHash
+		"read",          // a concurrent status reader
+		"guarded",       // a key dump at this moment waits for wallet.mtx
+		"spto ret",      // the call fails with ErrVerifyOldpasswdFail and restores the flag
 		"read", "guarded",
 	}
 }
@@ -784,6 +799,166 @@ func raceLostLock(w *world, r *gen.Rand, attempts int) {
 	}
 }
 
+// ---------------------------------------------------------------- Part C: concurrent request mixes
+
+type ev struct {
+	kind      string // unlock | lock | sp | read | dump
+	inv, resp int64
+	ok        bool // unlock/lock/sp: returned nil; read: reported unlocked; dump: returned the key
+	wrongOld  bool
+}
+
+// soup runs `workers` goroutines issuing random requests for `dur`; afterwards every "unlocked" observation and every
+// returned key must be explained by a successful unlock that is not followed (in real time) by a completed lock.
+func soup(w *world, r *gen.Rand, workers int, dur time.Duration, withSp bool, tag string) {
+	start := time.Now()
+	now := func() int64 { return int64(time.Since(start)) }
+	evs := make([][]ev, workers)
+	var wg sync.WaitGroup
+	pw := w.pw
+	for g := 0; g < workers; g++ {
+		wg.Add(1)
+		seed := r.U64()
+		go func(g int) {
+			defer wg.Done()
+			rr := gen.New(seed)
+			for time.Since(start) < dur {
+				e := ev{}
+				k := rr.Pick(10, 8, 12, 30, 25, 15)
+				if k == 5 && !withSp {
+					k = 3
+				}
+				switch k {
+				case 0: // right password
+					e.kind = "unlock"
+					req := &types.WalletUnLock{Passwd: pw}
+					e.inv = now()
+					e.ok = w.e.w.ProcWalletUnLock(req) == nil
+				case 1: // wrong password
+					e.kind = "unlock-wrong"
+					e.inv = now()
+					if w.e.w.ProcWalletUnLock(&types.WalletUnLock{Passwd: "wrong" + pw}) == nil {
+						e.ok = true
+					}
+				case 2:
+					e.kind = "lock"
+					e.inv = now()
+					e.ok = w.e.w.ProcWalletLock() == nil
+				case 3:
+					e.kind = "read"
+					e.inv = now()
+					if rr.Bool() {
+						e.ok = !w.e.w.IsWalletLocked()
+					} else {
+						e.ok = !w.e.w.GetWalletStatus().IsWalletLock
+					}
+				case 4:
+					e.kind = "dump"
+					e.inv = now()
+					kk, err := w.e.w.ProcDumpPrivkey(w.addrs[0])
+					e.ok = err == nil && kk == w.keys[w.addrs[0]]
+				case 5: // password change to the same password (right old) or with a wrong old password
+					e.kind = "sp"
+					e.wrongOld = rr.Chance(2, 3)
+					old := pw
+					if e.wrongOld {
+						old = "wrong" + pw
+					}
+					e.inv = now()
+					e.ok = w.e.w.ProcWalletSetPasswd(&types.ReqWalletSetPasswd{OldPass: old, NewPass: pw}) == nil
+				}
+				e.resp = now()
+				evs[g] = append(evs[g], e)
+			}
+		}(g)
+	}
+	wg.Wait()
+	var all, unlocks, locks, sps []ev
+	for _, l := range evs {
+		all = append(all, l...)
+	}
+	for _, e := range all {
+		switch {
+		case e.kind == "unlock" && e.ok:
+			unlocks = append(unlocks, e)
+		case e.kind == "lock" && e.ok:
+			locks = append(locks, e)
+		case e.kind == "sp":
+			sps = append(sps, e)
+		case e.kind == "unlock-wrong" && e.ok:
+			out.Pred("C38|ProcWalletUnLock|wrong-password-accepted", "concurrent mix "+tag)
+		}
+	}
+	// o is explained iff some successful unlock u has u.inv < o.resp and no completed lock l with u.resp < l.inv and
+	// l.resp < o.inv, i.e. u.resp >= M(o) := max{ l.inv : l.resp < o.inv }.
+	sort.Slice(locks, func(i, j int) bool { return locks[i].resp < locks[j].resp })
+	lockMaxInv := make([]int64, len(locks))
+	for i, l := range locks {
+		lockMaxInv[i] = l.inv
+		if i > 0 && lockMaxInv[i-1] > l.inv {
+			lockMaxInv[i] = lockMaxInv[i-1]
+		}
+	}
+	sort.Slice(unlocks, func(i, j int) bool { return unlocks[i].inv < unlocks[j].inv })
+	unlockMaxResp := make([]int64, len(unlocks))
+	for i, u := range unlocks {
+		unlockMaxResp[i] = u.resp
+		if i > 0 && unlockMaxResp[i-1] > u.resp {
+			unlockMaxResp[i] = unlockMaxResp[i-1]
+		}
+	}
+	explained := func(o ev) bool {
+		nl := sort.Search(len(locks), func(i int) bool { return locks[i].resp >= o.inv }) // locks[:nl] completed before o.inv
+		mInv := int64(-1)
+		if nl > 0 {
+			mInv = lockMaxInv[nl-1]
+		}
+		nu := sort.Search(len(unlocks), func(i int) bool { return unlocks[i].inv >= o.resp }) // unlocks[:nu] invoked before o.resp
+		return nu > 0 && unlockMaxResp[nu-1] >= mInv
+	}
+	var nObs, nBad, nTransient, nLost int
+	for _, o := range all {
+		if !(o.kind == "read" || o.kind == "dump") || !o.ok {
+			continue
+		}
+		nObs++
+		if explained(o) {
+			continue
+		}
+		nBad++
+		overl := false
+		wrongOld := false
+		for _, s := range sps {
+			if s.inv < o.resp && o.inv < s.resp {
+				overl = true
+				wrongOld = wrongOld || s.wrongOld
+			}
+		}
+		switch {
+		case o.kind == "read" && overl && wrongOld:
+			nTransient++
+			out.Pred("C38|ProcWalletSetPasswd|observer-sees-unlocked-during-password-change-with-wrong-old-password", "concurrent mix "+tag+": a reader saw unlocked while a password change ran; every preceding unlock was followed by a completed lock")
+		case o.kind == "read" && overl:
+			nTransient++
+			out.Pred("C38|ProcWalletSetPasswd|observer-sees-unlocked-during-password-change-of-locked-wallet", "concurrent mix "+tag)
+		case len(sps) > 0:
+			// no password change overlaps the observation itself: a lock that completed earlier was lost
+			nLost++
+			out.Pred("C38|ProcWalletSetPasswd|lock-lost-wallet-stays-unlocked-after-lock", fmt.Sprintf("concurrent mix %s: %s observed unlocked/returned a key at %dns although every successful unlock before it was followed by a completed lock", tag, o.kind, o.inv))
+		case o.kind == "dump":
+			out.Pred("C38|ProcDumpPrivkey|secret-returned-without-successful-unlock", "concurrent mix "+tag+" (no password change in the mix)")
+		default:
+			out.Pred("C38|concurrent|wallet-unlocked-without-successful-unlock", "concurrent mix "+tag+" (no password change in the mix)")
+		}
+	}
+	out.Stat("soup_runs_"+tag, 1)
+	out.Stat("soup_events_"+tag, int64(len(all)))
+	out.Stat("soup_unlocked_observations_"+tag, int64(nObs))
+	out.Stat("soup_unexplained_"+tag, int64(nBad))
+	// leave the wallet locked
+	w.e.w.ProcWalletLock()
+}
+
 // ---------------------------------------------------------------- main
 
 func runScripts(r *gen.Rand, scripts [][]string, memPw bool) {
@@ -818,6 +993,9 @@ func main() {
 	}
 	os.MkdirAll(tmpRoot, 0o755)
 	r := gen.New(gen.Seed())
+	if v := os.Getenv("VERIF_C38_VARIANT"); v == "verifyfirst" || v == "repaired" || v == "current" {
+		modelVariant = v
+	}
 	out.Op("variant "+modelVariant, "ok")
 	if lines := gen.ReplayLines(); lines != nil {
 		var s []string
@@ -829,25 +1007,39 @@ func main() {
 		runScripts(r, [][]string{s}, true)
 		return
 	}
+	t0 := time.Now()
+	phase := func(name string) {
+		out.Note(fmt.Sprintf("phase %s done at %.1fs", name, time.Since(t0).Seconds()))
+	}
 	// A: the witness first, then generated scripts, then the real timer
 	runScripts(r, [][]string{witnessScript()}, true)
 	nWorlds := gen.Scale(2, 12)
 	for k := 0; k < nWorlds; k++ {
 		var ss [][]string
-		for j := 0; j < gen.Scale(12, 40); j++ {
-			ss = append(ss, randomScript(r, 10+r.Intn(30)))
+		for j := 0; j < gen.Scale(10, 40); j++ {
+			ss = append(ss, randomScript(r, 8+r.Intn(26)))
 		}
 		runScripts(r, ss, k%2 == 0)
 	}
+	phase("scripts")
 	runScripts(r, timerScripts(), true)
+	phase("timers")
 	// B: races
 	w := newWorld(r)
-	raceTransient(w, gen.Scale(60000, 1500000), "password-cached")
+	raceTransient(w, gen.Scale(30000, 1500000), "password-cached")
 	w.e.restart()
-	raceTransient(w, gen.Scale(15000, 400000), "password-not-cached")
+	phase("transient-cached")
+	raceTransient(w, gen.Scale(8000, 400000), "password-not-cached")
+	phase("transient-not-cached")
 	w.e.w.ProcWalletUnLock(&types.WalletUnLock{Passwd: w.pw, WalletOrTicket: true})
-	raceLostLock(w, r, gen.Scale(25000, 400000))
+	raceLostLock(w, r, gen.Scale(20000, 400000))
+	phase("lost-lock")
+	for k := 0; k < gen.Scale(6, 60); k++ {
+		soup(w, r, 3+r.Intn(4), time.Duration(gen.Scale(150, 400))*time.Millisecond, k%2 == 1, []string{"no-password-change", "with-password-change"}[k%2])
+	}
+	phase("soup")
 	w.close()
+	phase("close")
 	out.Sample("scripted: restart; spbegin 0 1 1; spto p1 -> at:p1 unlocked (ProcWalletSetPasswd with a wrong old password held inside VerifyPasswordHash; IsWalletLocked()=false)")
 	out.Sample("races: polling observers during failing password changes; Lock racing with the load/CAS pair of ProcWalletSetPasswd")
 }
